@@ -5,6 +5,8 @@ import (
 	"fmt"
 	"io"
 	"math/rand/v2"
+	"os"
+	"path/filepath"
 	"sort"
 	"strings"
 	"sync"
@@ -12,6 +14,7 @@ import (
 
 	"github.com/opencontainers/go-digest"
 	ocispec "github.com/opencontainers/image-spec/specs-go/v1"
+	"oras.land/oras-go/v2/content/file"
 	"oras.land/oras-go/v2/verifharness/evidence"
 	"oras.land/oras-go/v2/verifharness/worker"
 )
@@ -115,6 +118,41 @@ func runConc(seed int64, phase string, i int, rng *rand.Rand) worker.Result {
 		return dd
 	}
 
+	// file store: the pushers' paths may already hold longer / shorter files from an
+	// earlier session; a fresh store is opened on the directory
+	plantedConc := "none"
+	if t.fileDir != "" && strings.HasPrefix(kind, "file-named") && rng.IntN(2) == 0 {
+		plantedConc = []string{"longer", "longer", "shorter", "equal"}[rng.IntN(4)]
+		seen := map[string]bool{}
+		for _, p := range ps {
+			if seen[p.Name] {
+				continue
+			}
+			seen[p.Name] = true
+			n := len(b)
+			switch plantedConc {
+			case "longer":
+				n += 1 + rng.IntN(3000)
+			case "shorter":
+				n = rng.IntN(n)
+			}
+			path := filepath.Join(t.fileDir, filepath.FromSlash(p.Name))
+			_ = os.MkdirAll(filepath.Dir(path), 0o755)
+			if err := os.WriteFile(path, randBytes(rng, n), 0o644); err != nil {
+				res.Violate("harness:plant", err.Error(), nil)
+				return res
+			}
+		}
+		s2, err := file.New(t.fileDir)
+		if err != nil {
+			res.Violate("harness:new-store", err.Error(), nil)
+			return res
+		}
+		defer s2.Close()
+		t.st = s2
+		res.Count("conc_file_preexisting_"+plantedConc, 1)
+	}
+
 	before := listing(t.blobsDir)
 	var seq atomic.Int64
 	var evMu sync.Mutex
@@ -201,7 +239,7 @@ func runConc(seed int64, phase string, i int, rng *rand.Rand) worker.Result {
 	}
 	v := look(t.st, d)
 	w := func(extra map[string]any) map[string]any {
-		m := map[string]any{"store": kind, "content": short(b), "content_len": len(b), "descriptor": map[string]any{"digest": d.Digest, "size": d.Size},
+		m := map[string]any{"store": kind, "pre_existing_files": plantedConc, "content": short(b), "content_len": len(b), "descriptor": map[string]any{"digest": d.Digest, "size": d.Size},
 			"pushers": ps, "events": events, "view_after": v, "blobs_diff": listingDiff(before, after), "fetch_ok": fetchOK.Load(), "fetch_wrong": wrongInfo}
 		for a, c := range extra {
 			m[a] = c
@@ -272,7 +310,7 @@ func runConc(seed int64, phase string, i int, rng *rand.Rand) worker.Result {
 	}
 
 	sort.Strings(badKinds)
-	res.Key = fmt.Sprintf("%s|g%d|%s|m%d|%s", kind, nGood, strings.Join(badKinds, ","), nMaybe, sizeClass(len(b)))
+	res.Key = fmt.Sprintf("%s|g%d|%s|m%d|%s|pre=%s", kind, nGood, strings.Join(badKinds, ","), nMaybe, sizeClass(len(b)), plantedConc)
 	res.NT = maxRunning.Load() >= 2
 	res.Observe("interleavings", strings.Join(events, ""))
 	res.Observe("conc_stores", kind)
